@@ -1,6 +1,8 @@
 package main
 
 import (
+	"github.com/tuneinsight/lattigo/v6/core/rlwe"
+
 	"bytes"
 	"fmt"
 	"os"
@@ -178,7 +180,7 @@ func (k *call) gen() *ot.Gen { return ot.NewGen("op", k.t.Name, k.row.Method, k.
 // reference: brand-new receiver, distinct operand copies, fresh zeroed output (at one level less for
 // the smaller-level output history; a distinct copy of the aliased operand for accumulators).
 func (k *call) reference(pat ot.Pattern, sh ot.Shape) *obs {
-	key := fmt.Sprint(pat.Same, "|", sh == ot.ShapeSmallerLevel, "|", k.row.Out != nil && k.row.Out.Accumulates && pat.OutIs >= 0, pat.OutIs)
+	key := fmt.Sprint(pat.Rep, "|", pat.Same, "|", sh == ot.ShapeSmallerLevel, "|", k.row.Out != nil && k.row.Out.Accumulates && pat.OutIs >= 0, pat.OutIs)
 	if o, ok := k.refs[key]; ok {
 		return o
 	}
@@ -190,6 +192,9 @@ func (k *call) reference(pat ot.Pattern, sh ot.Shape) *obs {
 	in := k.kind.Make(e, k.gen())
 	if pat.Same != nil { // "op0==op1" is compared with two identical but distinct copies
 		in[pat.Same[1]] = k.kind.Make(e, k.gen())[pat.Same[0]]
+	}
+	if pat.Rep != "" && pat.OutIs >= 0 { // the same representation of the operand, but distinct from the output
+		in[pat.OutIs] = ot.ApplyRep(pat.Rep, in[pat.OutIs].(*rlwe.Ciphertext))
 	}
 	var out interface{}
 	if row.Out != nil {
@@ -232,6 +237,9 @@ func (k *call) measure(pat ot.Pattern, sh ot.Shape, h history) *obs {
 				if pat.Same != nil {
 					in[pat.Same[1]] = in[pat.OutIs]
 				}
+			}
+			if pat.Rep != "" { // the operand is another representation of the output's memory
+				in[pat.OutIs] = ot.ApplyRep(pat.Rep, out.(*rlwe.Ciphertext))
 			}
 		} else {
 			out = row.Out.MakeOut(e, in, sh)
@@ -448,6 +456,9 @@ func methodScenario(envName string, t *ot.Target, ri int, tier string) engine.Sc
 		if sh == ot.ShapeExact {
 			hists = histsPlain
 		}
+		if pat.Rep != "" {
+			hists = hists[:3] // aliasing through another representation: new receiver and the two residue fills only
+		}
 		h := hists[c.Choose(len(hists), "history")]
 		if dryRun {
 			c.Skip("dry run (C09_DRYRUN=1): leaves are only counted")
@@ -507,6 +518,22 @@ func methodScenario(envName string, t *ot.Target, ri int, tier string) engine.Sc
 		}
 		pure := func(x dev) bool { return x.pat.Name == "fresh" && x.sh == ot.ShapeExact }
 		fails := failures(o, ref, pure(d))
+		if pat.Rep == "header" || pat.Rep == "ptview" {
+			// A second header (c := *ct; &c) or the ct.Plaintext() view is a *different object* that shares the
+			// polynomials of the output. The statement speaks of "an output that is the same object as one of its
+			// inputs" and the library's aliasing contract is element identity (op.El() == opOut.El()), which such a
+			// header defeats by construction: a divergence here is recorded (coverage bucket), not judged.
+			// (.El() of the output IS the same object and is judged like the output itself.)
+			kept := fails[:0]
+			for _, f := range fails {
+				if strings.HasPrefix(f, "input-modified") {
+					kept = append(kept, f)
+				} else {
+					c.Cover("memory-alias-through-distinct-header(not judged)", t.Name+"."+row.Method+"/"+pat.Name)
+				}
+			}
+			fails = kept
+		}
 		if len(fails) == 0 {
 			return
 		}
